@@ -10,7 +10,7 @@ import re
 from facts import (AnchorMissing, callee, lit_value, nodes, pat_alternatives, pat_head, pat_variants, peel, short, unblock,
                    walk)
 from shared import TI, arm_rows, panics_in, the_match, variant_paths
-from c11_util import (hash_iteration_sites, LexError, Scopes, build_tokenizer, check_quoting_chain, fmt_calls, is_str_ty, keywords_table,
+from c11_util import (hash_iteration_sites, LexError, Scopes, build_tokenizer, check_quoting_chain, check_quoting_semantic, fmt_calls, is_str_ty, keywords_table,
                       reserved_words, strip_ty)
 
 TITLE = ("C12: every primitive/constructor keyword printed by the two type printers lexes to the token of the same "
@@ -323,10 +323,17 @@ def run(chk, facts, tier, only=None):
                        f"{kh['span']['file']}:{kh['span']['lo']}", ok_detail="in KEYWORDS")
         probs, keys = check_quoting_chain(c)
         chk.analysed(*keys)
-        for pr in probs:
-            chk.bad("quoting-chain", f"anchor moved: {pr}")
-        if not probs:
-            chk.ok("quoting-chain", "pp_text -> ident_string quotes iff !is_valid_as_id || is_keyword")
+        sem, sem_detail = check_quoting_semantic(c, model, words)
+        chk.analysed(c.fn(r"pretty::candid::ident_string$")["key"])
+        if sem == "bad":
+            chk.bad("quoting-chain", sem_detail)
+        elif sem == "ok":
+            chk.ok("quoting-chain", sem_detail + ("" if not probs else f" (shape differs from the reference: {probs})"))
+        else:
+            for pr in probs:
+                chk.bad("quoting-chain", f"anchor moved: {pr} (and ident_string is not evaluable: {sem_detail})")
+            if not probs:
+                chk.ok("quoting-chain", "pp_text -> ident_string quotes iff !is_valid_as_id || is_keyword")
         # names in the document: quoted through pp_text, or a type identifier at one of the known positions
         ALLOWED_RAW = {("pp_ty_inner", TI + "Var"), ("pp_class", TI + "Var"), ("pp_defs_plain", "closure"), ("pp_defs", "closure"),
                        ("pp_docs", "closure"), ("syntax::pp_ty", IT + "VarT"), ("syntax::pp_class", IT + "VarT"),
@@ -991,3 +998,8 @@ def run(chk, facts, tier, only=None):
         if only and only != rid:
             continue
         chk.run_rule(rid, desc, fn)
+    if only is None:
+        import c11
+        # names in a printed interface go through the same escape_text / ident_string / is_valid_as_id as names in printed values
+        chk.include(c11, "C11.R1", "C12.R7", facts)
+        chk.include(c11, "C11.R2", "C12.R8", facts)
